@@ -128,6 +128,13 @@ PROPS = {
                 "Non-trivial (reader) = input has a Huffman block with >24 bytes of compressed data, i.e. the AVX2 loop is eligible, and >=2 levels ran; (writer) = non-empty data.",
         "assumptions": COMMON_ASSUME + ["the run-time level switch is faithful for Readers because the decode dispatch re-reads the level on every call; Writers cache their encoder at init and are therefore run one process per level"],
     },
+    "C05": {
+        "level": "exploration",
+        "tests": [{"name": "TestC05", "quick": 5000, "thorough": 80000}],
+        "rule": "cases = (valid stream from the C02 generators, wrapped for flate / gzip (Multistream(false), optional name/comment) / zlib) x suffix of 0..5000 bytes (zeros, 0xff, pattern, header look-alike) x source kind x bufio size in {16,17,31,64,100,327..329,4095..4097,64Ki} x constructor (NewReader, Reset on a used Reader) x Read sizes, drawn by rapid. "
+                "Oracle: the Reader ends with io.EOF and io.ReadAll(source) afterwards returns exactly the suffix. Non-trivial = suffix non-empty. Sources that are not *bufio.Reader are a recorded known finding: drawn, counted as excluded, and replaced by a bufio source.",
+        "assumptions": COMMON_ASSUME,
+    },
 }
 
 # Texts for MANIFEST.json, per claimed property.
@@ -209,5 +216,11 @@ MANIFEST_TEXT = {
         "text": "Every generated input is decoded at each runnable acceleration level and the results compared with each other and with the reference oracle; writer workloads are replayed at each level from the same seed and their observable results (errors, decoded data, flushed prefixes) must coincide. All other writer-side checks additionally run at every level themselves.",
         "note": "Levels the host cannot execute are skipped and listed in the evidence.",
         "design_ref": "DESIGN.md section 4, C18",
+    },
+    "C05": {
+        "technique": "property-based testing (rapid): generated stream + suffix + source kind/size + constructor; exact-position oracle on the source after io.EOF",
+        "text": "For every generated combination the bytes still obtainable from the source after io.EOF must be exactly the generated suffix; final blocks of every type and bit alignment vary the look-ahead held at the end.",
+        "note": "Sources that are io.ByteReader but not *bufio.Reader over-read by design (known finding bytereader-sources-overread); that class is excluded by a predicate on the case and counted.",
+        "design_ref": "DESIGN.md section 4, C05",
     },
 }
